@@ -98,7 +98,10 @@ func c12Scenarios(level int) []c12Scenario {
 	// names) is populated from several documents here
 	for _, u := range c20Universes(level) {
 		for _, mp := range c20Mappings(level) {
-			if level == 0 && mp.name != "two-packages" && mp.name != "own-files+root-type+unmapped" {
+			if level == 0 && mp.name != "two-packages" && mp.name != "own-files+root-type+unmapped" && mp.name != "package-only-for-third" {
+				continue
+			}
+			if !c20MappingFits(u, mp) {
 				continue
 			}
 			var args []string
